@@ -31,10 +31,54 @@ ASSUMPTIONS = [
 ]
 
 
+def balanced_loader(rng):
+    """Sources that are members of several wire merges with a transitive relation between the merges
+    (the documented balanced-loader pattern): total = {c1.output, ...}; avg = total / -N; d_i = {avg, c_i.output}."""
+    n = rng.randint(2, 4)
+    prog = []
+    for i in range(n):
+        prog.append(["place", "c%d" % i, rng.choice(["steel-chest", "wooden-chest", "iron-chest"]), ["n", 2 * i], ["n", 30], None])
+    prog.append(["bun", "total", ["B", [["eo", "c%d" % i] for i in range(n)]]])
+    prog.append(["bun", "avg", ["bb", "/", ["v", "total"], ["n", -n]]])
+    for i in range(n):
+        order = [["v", "avg"], ["eo", "c%d" % i]]
+        if rng.random() < 0.5:
+            order.reverse()
+        prog.append(["bun", "d%d" % i, ["B", order]])
+        prog.append(["place", "ins%d" % i, "inserter", ["n", 2 * i], ["n", 32], None])
+        prog.append(["set", "ins%d" % i, "enable", ["any", rng.choice(["<", ">"]), ["v", "d%d" % i], ["n", 0]]])
+    return prog
+
+
+def example_sources():
+    d = os.path.join(driver.REPO, "example_programs")
+    out = []
+    for f in sorted(os.listdir(d)):
+        if f.endswith(".facto"):
+            with open(os.path.join(d, f)) as fh:
+                out.append((f, fh.read()))
+    return out
+
+
 def gen_cases(tier, seed):
     rng = random.Random(19000013 * seed + 73)
     n = 20 if tier == "quick" else 260
     cases = []
+    # the repository's own example programs (real wire-merge / memory / entity patterns): a seeded sample on the
+    # quick tier, all of them on the thorough tier
+    ex = example_sources()
+    pick = ex if tier == "thorough" else rng.sample(ex, k=min(6, len(ex)))
+    wanted = [e for e in ex if e[0].startswith("33_")]     # the multi-merge programs are always included
+    for name, text in {e[0]: e for e in pick + wanted}.values():
+        cases.append({"id": len(cases), "stratum": "example_program", "src": text, "name": name, "prog": [],
+                      "other": biggen.mixed_program(random.Random(5), "small", prefix="zz"), "pseed": 1,
+                      "optimize": True, "poles": None, "nproc": 4 if tier == "quick" else 6, "seed": rng.randrange(1 << 30)})
+    for _ in range(3 if tier == "quick" else 30):
+        sub = random.Random(rng.randrange(1 << 60))
+        cases.append({"id": len(cases), "stratum": "multi_merge_sources", "prog": balanced_loader(sub),
+                      "other": biggen.mixed_program(random.Random(6), "small", prefix="zz"), "pseed": sub.randrange(1 << 30),
+                      "optimize": sub.random() < 0.8, "poles": None, "nproc": 4 if tier == "quick" else 6,
+                      "seed": sub.randrange(1 << 30)})
     for i in range(n):
         sub = random.Random(rng.randrange(1 << 60))
         r = sub.random()
@@ -51,7 +95,7 @@ def gen_cases(tier, seed):
             prog = biggen.fanout_program(sub, sub.randint(3, 25))
             st = "fanout"
         other = biggen.mixed_program(random.Random(sub.randrange(1 << 30)), "small", prefix="zz")
-        cases.append({"id": i, "stratum": st, "prog": prog, "other": other, "pseed": sub.randrange(1 << 30),
+        cases.append({"id": len(cases), "stratum": st, "prog": prog, "other": other, "pseed": sub.randrange(1 << 30),
                       "optimize": sub.random() < 0.75, "poles": sub.choice([None, None, "medium"]),
                       "nproc": 4 if tier == "quick" else 6, "seed": sub.randrange(1 << 30)})
     return cases
@@ -70,9 +114,12 @@ def sub_compile(src, args, hashseed, cwd):
 def run_case(case):
     prog = case["prog"]
     rng = random.Random(case["seed"])
-    src, _l = lang.to_source(prog, random.Random(case["pseed"]))
+    if case.get("src"):
+        src = case["src"]
+    else:
+        src, _l = lang.to_source(prog, random.Random(case["pseed"]))
     osrc, _l2 = lang.to_source(case["other"], random.Random(1))
-    base = {"shape": lang.shape_of(prog), "stratum": case["stratum"]}
+    base = {"shape": case.get("name") or lang.shape_of(prog), "stratum": case["stratum"]}
     opts = {"optimize": case["optimize"], "poles": case["poles"]}
     runs = []
 
